@@ -49,10 +49,11 @@ def c01 (op : String) (args : List Sexp) : Verdict :=
             | some ir =>
               if renderGoVal (normSpec 64 c.ty false ir) != renderGoVal want then
                 let got := renderGoVal (normSpec 64 c.ty false ir)
-                let tag :=
-                  if got == renderGoVal (normSpecD 1 64 c.ty false g) then "[D27 ptr-to-invalid-null only] "
-                  else if got == renderGoVal (normSpecD 2 64 c.ty false g) then "[D30 ptr-ptr-inner-nil only] "
-                  else if got == renderGoVal (normSpecD 3 64 c.ty false g) then "[D27+D30 only] " else ""
+                let masks : List (Nat × String) :=
+                  [(1, "[D27 ptr-to-invalid-null only] "), (2, "[D30 ptr-ptr-inner-nil only] "),
+                   (4, "[D32 zero-instant-nonutc only] "), (3, "[D27+D30 only] "), (5, "[D27+D32 only] "),
+                   (6, "[D30+D32 only] "), (7, "[D27+D30+D32 only] ")]
+                let tag := (masks.find? fun m => got == renderGoVal (normSpecD m.1 64 c.ty false g)).elim "" (·.2)
                 some s!"{tag}record {i} read back as {renderGoVal (normSpec 64 c.ty false ir)} (normalised), written value normalises to {renderGoVal want}"
               else
                 -- correspondence: the model's round trip gives what the implementation gave
